@@ -3,6 +3,7 @@
 nbdime/vcs/git/mergedriver.py (main) and the installed nbformat.write that Sys/MergeApp.v branches on.
 Read off the AST; anything that does not have one of the recognised shapes fails closed (GENERROR, exit 2)."""
 import sys, os, ast
+OUTPUTS = ['MergeAppFacts.v']
 sys.path.insert(0, os.path.dirname(os.path.abspath(__file__)))
 from common import *
 
@@ -134,6 +135,21 @@ def mergeapp_facts():
     mg = calls(mm, lambda f: is_name(f, 'merge_notebooks'))
     if len(mg) != 1 or not all(m.lineno < c.lineno for m in mg for c in wr) or not all(r.lineno < mg[0].lineno for r in rd):
         fail('main_merge: order reads < merge_notebooks < nbformat.write')
+    # nothing else in main_merge may touch files: every call must be one of the recognised ones
+    allowed = {'process_diff_flags', 'os.path.exists', '_handle_agreed_deletion', 'read_notebook', 'merge_notebooks', 'io.open', 'open',
+               'json.dump', 'outfile.write', 'prettyprint_config_from_args', 'io.StringIO', 'pretty_print_merge_decisions',
+               'config.out.getvalue', 'nbformat.write'}
+    seen = {}
+    for c in calls(mm, lambda f: True):
+        nm = ast.unparse(c.func)
+        seen[nm] = seen.get(nm, 0) + 1
+        if nm not in allowed and not nm.startswith('logger.'):
+            fail('main_merge: call of %s is not modelled' % nm)
+    if seen.get('io.open', 0) + seen.get('open', 0) > 1 + (via == 'WriteOpened') or seen.get('nbformat.write', 0) != 2 or seen.get('json.dump', 0) > 1:
+        fail('main_merge: unexpected number of open/write/dump calls %r' % seen)
+    for w in ast.walk(mm):
+        if isinstance(w, ast.With) and via == 'WritePath' and not any(isinstance(x, ast.Call) and ast.unparse(x.func) == 'json.dump' for x in ast.walk(w)):
+            fail('main_merge: a with-block other than the decisions writer')
     # _handle_agreed_deletion
     hd = func(tree, '_handle_agreed_deletion', fn)
     r = calls(hd, lambda f: is_name(f, 'read_notebook'))
